@@ -21,6 +21,7 @@ def run(ck, tier):
     _scratch(ck, facts.load())
     _gitcut(ck, facts.load())
     _resume(ck, facts.load())
+    _leaders(ck, facts.load())
 
 
 def _run(ck, tier):
@@ -1066,3 +1067,58 @@ def _linform_stmt(f, pv, sx):
     """linear form of the right-hand side of `x = <use>` where x has several definitions (so the normaliser must not
     look x itself up as single-definition)"""
     return _linform(f, pv, sx["rv"]["op"])
+
+
+# ---- leader stripping leaves the inline-tag delimiters alone ---------------------------------------
+TAG_DELIMITERS = {"{": "opens an inline tag", "}": "closes an inline tag", "@": "marks a block or inline tag"}
+
+
+def _leaders(ck, p):
+    """Two stages of one pipeline: `without_initiators` strips comment leaders/closers at the edges of a comment,
+    then `mark_inline_tags` / `parse_line` recognise `{@tag ..}` and `@tag` by their delimiter tokens.  A delimiter
+    that counts as a leader is stripped when it sits at the edge, the tag is not recognised and its contents
+    (identifiers, signatures) are offered to the rules as prose."""
+    from .c01 import eval_char_pred
+    from ..interp import Stuck
+    from .. import callgraph
+    rule = "R-C04-leaders"
+    ck.rule(rule, "the characters that comment-leader stripping (`is_comment_character`, used by `without_initiators` at both edges of a comment) removes include none of the delimiters `{` `}` `@` by which the later stage of the same pipeline (JSDoc / Javadoc `mark_inline_tags`, `parse_line`) recognises tags - otherwise a tag at the edge of a comment loses a delimiter and its contents stay lintable (the predicate is evaluated on each delimiter over its MIR)")
+    byk = fns_by_key(p)
+    fs = byk.get("harper_comments::comment_parsers::is_comment_character")
+    wi = byk.get("harper_comments::comment_parsers::without_initiators")
+    mk = byk.get("harper_comments::comment_parsers::jsdoc::mark_inline_tags")
+    if not (ck.anchor(rule, "comment_parsers::without_initiators", wi) and ck.anchor(rule, "jsdoc::mark_inline_tags", mk)):
+        return
+    # the predicates the two scans of without_initiators apply: its closures (and what they call)
+    preds = [c for c in p.closures_of(wi[0].name)]
+    ck.saw(wi[0])
+    if not preds:
+        ck.undecided(rule, "without_initiators:delimiters", wi[0].span, "no scan predicate found in without_initiators")
+        return
+    # both stages on one path: a parser that calls without_initiators and mark_inline_tags (directly or through parse_line)
+    users = []
+    for f in p.fns.values():
+        if not f.name.startswith("harper_comments::comment_parsers::") or f.get("kind") in ("Closure", "Promoted"):
+            continue
+        names = {last(norm(inst_of(t))) for _, t in f.calls()}
+        if "without_initiators" in names and ({"mark_inline_tags", "parse_line"} & names):
+            users.append(f)
+    if not users:
+        ck.proved(rule, "without_initiators:delimiters", wi[0].span, "no comment parser applies both leader stripping and the inline-tag scanner")
+        return
+    bad = []
+    try:
+        for ch, why in sorted(TAG_DELIMITERS.items()):
+            for c in preds:
+                kept = eval_char_pred(p, c, ord(ch))        # the scans look for the first character that is KEPT
+                if not kept:
+                    bad.append((ch, why))
+                    break
+    except Stuck as e:
+        ck.undecided(rule, "without_initiators:delimiters", wi[0].span, "the scan predicate is beyond the evaluator (%s)" % e)
+        return
+    if bad:
+        ck.refuted(rule, "without_initiators:delimiters", wi[0].span, "leader stripping removes %s at the edge of a comment, but %s (%s call both stages): a Javadoc / JSDoc comment that begins or ends with an inline tag such as `{@link Foo#bar(int)}` loses the brace, the tag is not recognised and its contents are offered to the rules as prose"
+                   % (", ".join("`%s`" % c for c, _ in bad), "; ".join("`%s` %s" % b for b in bad), ", ".join(sorted(keyname(p, u) for u in users))))
+    else:
+        ck.proved(rule, "without_initiators:delimiters", wi[0].span, "both scan predicates keep `{`, `}` and `@` (evaluated over the MIR of %d closure(s) and is_comment_character); stages combined in: %s" % (len(preds), ", ".join(sorted(keyname(p, u) for u in users))))
